@@ -29,6 +29,8 @@ def units(tier):
         for b in A.KINDS:
             if a != b:
                 us.append(("switch", a, b))
+    us.append(("truncated_dates",))
+    us.append(("strptime",))
     us.append(("times",))
     us.append(("text_times",))
     for h0 in range(-100, 101, 20):
@@ -271,6 +273,93 @@ def run_unit(unit, ctx):
                     kw = dict(base, week_of_year=w, day_of_week=7)
                     _ctor(ctx, {"kind": "ctor", "mode": kind, "kw": kw, "after_mode": ka if rnd else None},
                           {"part": "week", "switch": True}, kw, c.valid_week(y, w, 7))
+    elif u == "truncated_dates":
+        # a truncated date that carries a two-digit year is a date *in that year*: the same impossible days are refused
+        impl.set_mode(None)
+        c = M.cal("greg")
+        parser = _tp_parser(allow_truncated=True, default_to_unknown_time_zone=True)
+        for yy in (0, 4, 15, 16, 19, 96, 99):
+            base = {"year": yy, "truncated": True, "truncated_property": "year_of_century"}
+            for mo in range(0, 14):
+                for d in (0, 1, 28, 29, 30, 31, 32):
+                    want = 1 <= mo <= 12 and c.valid_cal(yy, mo, d)
+                    ctx.state_count += 1
+                    kw = dict(base, month_of_year=mo, day_of_month=d)
+                    _ctor(ctx, {"kind": "ctor_truncated", "kw": kw}, {"part": "truncated_cal"}, kw, want)
+                    for text in ("%02d-%02d-%02d" % (yy, mo, d), "%02d%02d%02d" % (yy, mo, d)):
+                        _parse(ctx, parser, {"kind": "parse_truncated", "text": text}, {"part": "truncated_cal"}, text, want)
+            for doy in (0, 1, 59, 60, 365, 366, 367):
+                kw = dict(base, day_of_year=doy)
+                _ctor(ctx, {"kind": "ctor_truncated", "kw": kw}, {"part": "truncated_ord"}, kw, c.valid_ord(yy, doy))
+                for text in ("%02d-%03d" % (yy, doy), "%02d%03d" % (yy, doy)):
+                    _parse(ctx, parser, {"kind": "parse_truncated", "text": text}, {"part": "truncated_ord"}, text,
+                           c.valid_ord(yy, doy))
+            for w in (0, 1, 52, 53, 54):
+                for wd in (0, 1, 7, 8):
+                    kw = dict(base, week_of_year=w, day_of_week=wd)
+                    _ctor(ctx, {"kind": "ctor_truncated", "kw": kw}, {"part": "truncated_week"}, kw, c.valid_week(yy, w, wd))
+                    text = "%02d-W%02d-%d" % (yy, w, wd)
+                    _parse(ctx, parser, {"kind": "parse_truncated", "text": text}, {"part": "truncated_week"}, text,
+                           c.valid_week(yy, w, wd))
+        # year-less truncated dates: judged as if in a leap year (the most permissive real year)
+        for mo in range(0, 14):
+            for d in (0, 1, 28, 29, 30, 31, 32):
+                kw = {"truncated": True, "month_of_year": mo, "day_of_month": d}
+                want = 1 <= mo <= 12 and 1 <= d <= c.leap[mo - 1]
+                _ctor(ctx, {"kind": "ctor_truncated", "kw": kw}, {"part": "truncated_yearless"}, kw, want)
+    elif u == "strptime":
+        # the strptime entry point (with and without its dump_format keyword) refuses the same impossible values
+        impl.set_mode(None)
+        c = M.cal("greg")
+        parser = _tp_parser(assumed_time_zone=(0, 0))
+        for y in (2015, 2016):
+            for mo in range(0, 14):
+                for d in (0, 1, 28, 29, 30, 31, 32):
+                    want = 1 <= mo <= 12 and c.valid_cal(y, mo, d)
+                    text = "%04d-%02d-%02dT06:30:15" % (y, mo, d)
+                    for dfmt in (None, "CCYYMMDDThhmmss"):
+                        ctx.state_count += 1
+                        ctx.transitions += 1
+                        try:
+                            p = parser.strptime(text, "%Y-%m-%dT%H:%M:%S", dump_format=dfmt)
+                            ok = True
+                        except ValueError:
+                            ok = False
+                        except Exception as ex:
+                            ctx.violation("error_type", {"part": "strptime", "exc": type(ex).__name__},
+                                          {"kind": "strptime", "text": text, "dump_format": dfmt}, "ValueError-derived", repr(ex))
+                            continue
+                        if ok != want:
+                            ctx.violation("acceptance", {"part": "strptime", "want": want, "dump_format": bool(dfmt)},
+                                          {"kind": "strptime", "text": text, "dump_format": dfmt}, want, ok)
+                        elif ok and dfmt and str(p) != "%04d%02d%02dT063015" % (y, mo, d):
+                            ctx.violation("acceptance", {"part": "strptime_dump_format", "want": want},
+                                          {"kind": "strptime", "text": text, "dump_format": dfmt},
+                                          "%04d%02d%02dT063015" % (y, mo, d), impl.sstr(p))
+            for h, mi, s in ((24, 0, 0), (24, 0, 1), (25, 0, 0), (23, 60, 0), (23, 59, 60), (23, 59, 59), (0, 0, 0), (24, 1, 0)):
+                text = "%04d-03-01T%02d:%02d:%02d" % (y, h, mi, s)
+                for dfmt in (None, "CCYY-DDDThh:mm:ss"):
+                    ctx.transitions += 1
+                    try:
+                        parser.strptime(text, "%Y-%m-%dT%H:%M:%S", dump_format=dfmt)
+                        ok = True
+                    except ValueError:
+                        ok = False
+                    if ok != M.valid_time(h, mi, s):
+                        ctx.violation("acceptance", {"part": "strptime_time", "want": M.valid_time(h, mi, s), "dump_format": bool(dfmt)},
+                                      {"kind": "strptime", "text": text, "dump_format": dfmt}, M.valid_time(h, mi, s), ok)
+            for doy in (0, 1, 365, 366, 367):
+                text = "%04d-%03d" % (y, doy)
+                for dfmt in (None, "CCYY-MM-DD"):
+                    ctx.transitions += 1
+                    try:
+                        parser.strptime(text, "%Y-%j", dump_format=dfmt)
+                        ok = True
+                    except ValueError:
+                        ok = False
+                    if ok != c.valid_ord(y, doy):
+                        ctx.violation("acceptance", {"part": "strptime_ord", "want": c.valid_ord(y, doy), "dump_format": bool(dfmt)},
+                                      {"kind": "strptime", "text": text, "dump_format": dfmt}, c.valid_ord(y, doy), ok)
     elif u == "text_dates":
         kind = unit[1]
         impl.set_mode(A.MODE_OF[kind])
@@ -448,6 +537,10 @@ def replay_case(case, ctx):
             ctx.violations.extend(v for v in sub.violations if v["case"].get("text") == case["text"])
     elif k == "zone":
         run_unit(("zones", case["h"], case["h"] + 1), ctx)
+    elif k in ("ctor_truncated", "parse_truncated"):
+        run_unit(("truncated_dates",), ctx)
+    elif k == "strptime":
+        run_unit(("strptime",), ctx)
 
 
 def vacuity(tier, counters, outcomes):
